@@ -387,7 +387,9 @@ class C09:
                 full = k not in seen_kinds or tier != "quick"
                 seen_kinds.add(k)
                 if full:
-                    for bit in range(len(v) * 8):
+                    # every bit of the object; for a very large object (the 258-hidden-message proof) the first 272 octets, the last 64 and a sample
+                    bits_ = range(len(v) * 8) if len(v) <= 1024 else sorted(set(list(range(272 * 8)) + list(range((len(v) - 64) * 8, len(v) * 8)) + rng.sample(range(len(v) * 8), 512)))
+                    for bit in bits_:
                         q = bytearray(v); q[bit // 8] ^= 1 << (bit % 8)
                         add(k, bytes(q), False, "bitflip")
                 for n in list(range(1, 65)):
